@@ -88,6 +88,13 @@ Reads(ev) == (IF ev.op \in {"Convert", "Add", "Sub", "Mul", "Div", "Neg", "Abs",
 Judge(ev) ==
     IF \E r \in Reads(ev) : regs[r].k = "oor" THEN "oor" ELSE      \* an operand left the model range earlier
     CASE ev.op = "Lit"   -> "ok"
+      [] ev.op = "Snap" ->
+            \* quantities are immutable: whatever was called since, every register still holds the value the
+            \* specification stored in it (a result aliasing or mutating an operand shows here)
+            IF \A r \in 1..K : regs[r].k # "q"
+                                \/ (ev.snap[r].k = regs[r].k /\ ev.snap[r].t = regs[r].t /\ ev.snap[r].u = regs[r].u
+                                    /\ <<ev.snap[r].a[1], ev.snap[r].a[2]>> = regs[r].a)
+            THEN "ok" ELSE "bad"
       [] ev.op = "Round" -> RoundJudge(regs[ev.x], ev.n, ObsVal(ev.res), mode)
       [] ev.op = "Alloc" ->
             LET q  == regs[ev.x]
@@ -111,10 +118,10 @@ Judge(ev) ==
 
 NewReg(ev) ==
     CASE ev.op = "Lit" -> Expected(ev)
-      [] ev.op \in {"Cmp", "Alloc", "HashEq", "Sort"} -> EmptyV
+      [] ev.op \in {"Cmp", "Alloc", "HashEq", "Sort", "Snap"} -> EmptyV
       [] OTHER -> IF ev.res.k \in {"q", "n"} THEN ObsVal(ev.res) ELSE EmptyV
 
-HasDest(ev) == ev.op \notin {"Cmp", "Alloc", "HashEq", "Sort", "Reset", "SetMode", "SetConv"}
+HasDest(ev) == ev.op \notin {"Cmp", "Alloc", "HashEq", "Sort", "Reset", "SetMode", "SetConv", "Snap"}
 
 Init == i = 1 /\ regs = [r \in 1..K |-> EmptyV] /\ mode = "ROUND_HALF_EVEN" /\ live = TRUE /\ mc = FALSE
 
@@ -129,7 +136,7 @@ Step ==
        ELSE IF ev.op = "SetConv" THEN mc' = ev.on /\ UNCHANGED <<regs, live, mode>>
        ELSE LET j == Judge(ev) IN
             /\ IF j = "ok" THEN TRUE
-               ELSE PrintT(<<"QV", j, ev.id, IF ev.op \in {"Round", "Alloc", "HashEq", "Lit", "Sort"}
+               ELSE PrintT(<<"QV", j, ev.id, IF ev.op \in {"Round", "Alloc", "HashEq", "Lit", "Sort", "Snap"}
                                              THEN EmptyV ELSE Expected(ev)>>)
             \* a deviation ends the judgement of the program; a value outside the model range only
             \* poisons the register it is stored in (events reading it are skipped)
